@@ -1,0 +1,10 @@
+//go:build verif
+
+package ledger
+
+import "github.com/polynetwork/poly/core/store"
+
+// VerifNewLedgerWithStore builds a Ledger over the given store (verification harness in /verif: a read-only store
+// view over governance contract state, so that code reading through ledger.DefLedger can be driven without a chain).
+// Compiled only with the build tag `verif`.
+func VerifNewLedgerWithStore(s store.LedgerStore) *Ledger { return &Ledger{ldgStore: s} }
